@@ -1,5 +1,6 @@
 """C08 (partial): every lock-free free list is ABA-safe by version tag or by lock (R-ABA); tagged
 lists advance the tag on push as well; no ownership decision is a non-atomic check-then-act (R-ATOM)."""
+from vlib import fixtures
 from rules import sync
 from vlib.mir import Fn
 
@@ -9,6 +10,7 @@ FILES = ['src/memory/secure_pool.rs', 'src/memory/lockfree_pool.rs', 'src/memory
 
 def run(ctx):
     fx = ctx.facts("default")
+    fixtures.run(ctx, ['aba', 'atom'])
     fns = []
     npop = 0
     ncas = 0
